@@ -315,6 +315,7 @@ Section Log.
         destruct (handle_ae_log n _ _ _ _ _ _ _ _ _ H2 Hin (i_log_ok n H2 k) eq_refl Hta)
           as ([->| ->] & _) end; auto.
       apply log_ok_firstn. apply Hll.
+    - apply log_ok_firstn. exact Hold.
   Qed.
 
   Lemma I_log_terms_step n l n' : inv1 V n -> inv2 n -> step V n l n' -> I_log_terms n'.
@@ -334,6 +335,7 @@ Section Log.
         destruct (handle_ae_log n _ _ _ _ _ _ _ _ _ H2 Hin (i_log_ok n H2 k) eq_refl Hta)
           as ([->| ->] & _) end; auto.
       apply In_firstn in He. now apply (i_llog_terms n H2).
+    - apply In_firstn in He. auto.
   Qed.
 
   Lemma I_ae_stable n n' t prev pt (ents : list entry) :
